@@ -11,7 +11,7 @@ pub const BLOCKED: &str = "MOCK-BLOCKED";
 pub enum ByteItem { Byte(u8), WouldBlock, Error, Interrupted, Eof }
 
 #[derive(Default)]
-pub struct ByteScript { pub rx: VecDeque<ByteItem>, pub dry_reads: usize, pub tx: Vec<u8>, pub wresp: VecDeque<char>, pub io_resp: VecDeque<IoResp>, pub flush_ok: bool, pub chunk: usize, pub flushes: usize }
+pub struct ByteScript { pub rx: VecDeque<ByteItem>, pub dry_reads: usize, pub tx: Vec<u8>, pub wresp: VecDeque<char>, pub io_resp: VecDeque<IoResp>, pub flush_answers: VecDeque<bool>, pub chunk: usize, pub flushes: usize }
 #[derive(Clone, Copy, Debug)]
 pub enum IoResp { Wrote(usize), Interrupted, Error }
 pub type Shared = Arc<Mutex<ByteScript>>;
@@ -70,7 +70,7 @@ impl io::Write for SerialDev {
             Some(IoResp::Error) => Err(io::Error::new(io::ErrorKind::Other, "io")),
         }
     }
-    fn flush(&mut self) -> io::Result<()> { let mut s = self.0.lock().unwrap_or_else(|e| e.into_inner()); s.flushes += 1; if s.flush_ok { Ok(()) } else { Err(io::Error::new(io::ErrorKind::Other, "flush")) } }
+    fn flush(&mut self) -> io::Result<()> { let mut s = self.0.lock().unwrap_or_else(|e| e.into_inner()); s.flushes += 1; if s.flush_answers.pop_front().unwrap_or(true) { Ok(()) } else { Err(io::Error::new(io::ErrorKind::Other, "flush")) } }
 }
 use serialport::*;
 impl SerialPort for SerialDev {
